@@ -37,7 +37,8 @@ FUNCS = [
     "sedpack.io.dataset_iteration:DatasetIteration.as_numpy_iterator_rust",
     "sedpack.io.flatbuffer.iterate:IterateShardFlatBuffer.decode_array",
 ]
-RUST_FUNCS = ["rust/src/parallel_map.rs: parallel_map, parallel_map::{closure#0}, ParallelMap::next, Drop::drop, ThreadCommunication::new_pair",
+RUST_FUNCS = ["rust/src/lib.rs: RustIter::new, __enter__, next, __exit__ (STATIC_ITERATORS registry)",
+              "rust/src/parallel_map.rs: parallel_map, parallel_map::{closure#0}, ParallelMap::next, Drop::drop, ThreadCommunication::new_pair",
               "rust/src/example_iteration.rs: ShardProgress::next, get_example"]
 
 
@@ -111,8 +112,72 @@ def mir_part(tier):
                     if len(st.samples) < 2 and n >= 3:
                         st.samples.append(dict(n=n, T=T, nexts=nexts, results=[str(x) for x in r["results"]],
                                                schedule_tail=[str(e) for e in r["log"][-8:]]))
+    # (E) the process-wide iterator registry of lib.rs: every interleaving of the life cycles of up to 3 live iterators
+    try:
+        hists = []
+        if tier == "quick":
+            for H in (1, 2):
+                hists += list(mirx.registry_histories(H))
+            # three handles: enter+next taken together
+            for h in mirx.registry_histories(3):
+                if all(h[i + 1] == ("next", x) for i, (op, x) in enumerate(h[:-1]) if op == "enter"):
+                    hists.append(h)
+        else:
+            for H in (1, 2, 3):
+                hists += list(mirx.registry_histories(H))
+        reg_seen = set()
+        for h in hists:
+            st.paths += 1
+            st.proves += 1
+            problems, rstat = mirx.registry_history(fns, h)
+            st.queries += rstat["queries"]
+            if problems:
+                p0 = problems[0]
+                if p0["kind"] not in reg_seen:
+                    reg_seen.add(p0["kind"])
+                    st.cex.append(dict(msg=f"RustIter registry, history {' '.join(f'{op}{x}' for op, x in h)}: {p0['what']}", model={},
+                                       info=dict(kind="registry-" + p0["kind"], history=[list(x) for x in h])))
+            else:
+                st.proved += 1
+        st.samples.append(dict(registry_histories=len(hists)))
+    except Inconclusive as inc:
+        st.inconclusive.append(f"iterator registry: {inc}")
     st.notes = dict(mir=info, functions=names)
     return st
+
+
+def registry_replay(ext, history):
+    """The same history of RustIter operations on the rebuilt extension: handle h reads its own shard files."""
+    with common.scratch_dir("vt15g_") as tmp:
+        from sedpack.io import Attribute
+        files, want = {}, {}
+        for h in sorted({x for _op, x in history}):
+            d = fillerlab.make_dataset(tmp / f"ds{h}", ft="fb", eps=2, attrs=[Attribute(name="a", dtype="int32", shape=(2,))], compression="")
+            with d.filler() as f:
+                for v in range(4):
+                    f.write_example(values={"a": np.array([100 * h + v] * 2, np.int32)}, split="train")
+            files[h] = [str(d.path / si.file_infos[0].file_path) for si in d.shard_info_iterator("train")]
+            want[h] = [100 * h + v for v in range(4)]
+        hs, got = {}, {h: [] for h in files}
+        for step, (op, h) in enumerate(history):
+            try:
+                if op == "new":
+                    hs[h] = ext.RustIter(files=files[h], repeat=False, threads=1, compression="")
+                elif op == "enter":
+                    hs[h].__enter__()
+                elif op == "next":
+                    r = hs[h].__next__()
+                    v = int(np.frombuffer(bytes(r[0]), dtype="<i4")[0])
+                    got[h].append(v)
+                    if v != want[h][len(got[h]) - 1]:
+                        return f"step {step}: next() of iterator {h} returned example {v}, its own files hold {want[h]}"
+                elif op == "exit":
+                    hs[h].__exit__(None, None, None)
+            except StopIteration:
+                return f"step {step}: {op} of iterator {h} raised StopIteration although its files hold unread examples"
+            except BaseException as exc:  # noqa: BLE001 - pyo3 PanicException derives from BaseException
+                return f"step {step}: {op} of iterator {h} raised {type(exc).__name__}: {str(exc)[:120]}"
+    return None
 
 
 def todict_part(tier):
@@ -231,6 +296,8 @@ def run_diff_subprocess(so_path, case, timeout=90):
         r = subprocess.run([sys.executable, "-m", "vtlib.checks.c15", so_path, json.dumps(case)], capture_output=True, text=True,
                            timeout=timeout, cwd=str(common.VERIF))
     except subprocess.TimeoutExpired:
+        if isinstance(case, dict):
+            return f"the process replaying {case} froze for more than {timeout} s"
         n_shards, per, T, comp, take, decl = case
         return (f"the process reading {n_shards} shards with {T} native threads (take={take}, compression {comp or 'none'}) "
                 f"froze for more than {timeout} s (deadlock in the native reader)")
@@ -352,14 +419,16 @@ def run(tier, seed):
                     "patterns.  A rebuilt extension is compared with the Python reader on real datasets.",
         functions=FUNCS,
         bounds=dict(items="0..5 quick / 0..8 thorough", threads="1..4 quick / 1..6 thorough", drop_positions="every next() count 0..n+2",
+                    registry="all interleavings of new/enter/next/exit of <= 3 iterators (quick: enter+next atomic for 3)",
                     usize="all 64-bit values (inductive steps)", rust_functions=RUST_FUNCS),
         stats=st.as_dict(), samples=st.samples,
         assumptions=["std::sync::mpsc: unbounded FIFO, recv blocks, Err only when empty and the sender was dropped; send fails only when the "
                      "receiver was dropped", "Kahn determinism of blocking SPSC process networks", "ShardProgress.total_examples == number "
                      "of examples in the shard >= 1 (set by get_shard_progress; the Python writer never stores an empty shard)",
+                     "rand::random() does not return the key of one of the (<= 3) live iterators (probability of a collision < 2^-62)",
                      "the MIR pretty printer drops the third capture of the worker closure (the mapped function); it is re-attached"],
         outside=["byte-level equality of the Rust FlatBuffers / flate2 / lz4 decoders with the Python ones (differential anchor only)",
-                 "pyo3 glue (GIL, STATIC_ITERATORS map) beyond the differential anchor"],
+                 "pyo3 glue (GIL, argument conversion); registry histories with more than 3 live iterators"],
         violations=viols, inconclusive=st.inconclusive, harness_errors=errors,
         twin=dict(obligations_reached=st.proves),
         rule="protocol: one evaluation = one (n, T, drop position) MIR execution deciding all schedules; steps: one z3 obligation; re-typing: "
@@ -378,6 +447,9 @@ def replay(case):
                 return True, f"real extension with a consumer pausing {secs} s after the first example yields {out}, the Python reader {py}"
         return False, "a pausing consumer still gets the Python reader's sequence"
     so_path, _ = rustlab.build_so()
+    if kind.startswith("registry-"):
+        bad = run_diff_subprocess(so_path, dict(registry=case["history"]))
+        return bad is not None, bad or "the rebuilt extension serves every handle from its own iterator in this history"
     if kind.startswith("native-differs") or kind.startswith("native-"):
         bad = run_diff_subprocess(so_path, case["case"])
         return bad is not None, bad or "equal"
@@ -405,6 +477,9 @@ if __name__ == "__main__":
     common.import_sedpack()
     _ext = rustlab.load_so(sys.argv[1])
     _case = json.loads(sys.argv[2])
-    print("RESULT " + json.dumps(differential_case(_ext, *_case)), flush=True)
+    if isinstance(_case, dict) and "registry" in _case:
+        print("RESULT " + json.dumps(registry_replay(_ext, [tuple(x) for x in _case["registry"]])), flush=True)
+    else:
+        print("RESULT " + json.dumps(differential_case(_ext, *_case)), flush=True)
     import os
     os._exit(0)
